@@ -266,7 +266,7 @@ fn configs() -> Vec<DbOpts> {
 fn failing_gate_scenarios() -> Vec<gate::Scenario> {
     let mut v = vec![];
     for q in ["SELECT w * w FROM t", "SELEC", "SELECT s + 1 FROM t", "SELECT SUM(x) + SUM(x) FROM t", "SELECT id FROM t ORDER BY id LIMIT 1 OFFSET 99", "SELECT id FROM nosuch"] {
-        v.push(gate::Scenario { query: q.to_string(), cold: false, with_ingest: false, factor: 0, restart_check: false, no_query: false });
+        v.push(gate::Scenario { query: q.to_string(), cold: false, with_ingest: false, factor: 0, restart_check: false, no_query: false, with_evict: false });
     }
     v
 }
